@@ -19,4 +19,8 @@ Definition model_sig : sigma := fun o =>
   | PArrCat => TForall (TFun (TArr (TVar 0)) (TFun (TArr (TVar 0)) (TArr (TVar 0))))
   | PArrMap => TForall (TForall (TFun (TFun (TVar 1) (TVar 0)) (TFun (TArr (TVar 1)) (TArr (TVar 0)))))
   | PEq => TForall (TForall (TFun (TVar 1) (TFun (TVar 0) TBool)))
+  | PRecFields => TForall (TFun (TDict (TVar 0)) (TArr TStr))
+  | PRecValues => TForall (TFun (TDict (TVar 0)) (TArr (TVar 0)))
+  | PRecHas => TForall (TFun TStr (TFun (TDict (TVar 0)) TBool))
+  | PRecGet => TForall (TFun TStr (TFun (TDict (TVar 0)) (TVar 0)))
   end.
